@@ -83,6 +83,12 @@ def rand_set(ns, rnd, with_sd):
               sc=rnd.uniform(-100, 100), rx=rot(), ry=rot(), rz=rot())
     if abs(kw['rx']) >= 60 or abs(kw['ry']) >= 60 or abs(kw['rz']) >= 60:
         return rand_set(ns, rnd, with_sd)
+    if rnd.random() < 0.12:
+        # two or three rotation components exactly equal (rounded tables often have such ties)
+        a, b = rnd.sample(['rx', 'ry', 'rz'], 2)
+        kw[b] = kw[a]
+        if rnd.random() < 0.3:
+            kw['rx'] = kw['ry'] = kw['rz'] = kw[a]
     if rnd.random() < 0.15:
         # parameters typed as whole numbers (Python int), as a user or a table might give them
         kw = {k: (int(v) if rnd.random() < 0.6 else v) for k, v in kw.items()}
